@@ -193,7 +193,7 @@ GenActs ==
                     x \in {y \in ST : S.sub[y[2]][SessUser[y[1]]].live}}
       \* somebody else's given: invitation, mute / unmute by the manager, ban
       OtherEv(t, u, m) ==
-        IF ~S.sub[t][u].live THEN (IF m = "N" THEN <<>> ELSE <<Ev("new", t, u, m \in {"JRWPS", "JRWPA"})>>)
+        IF ~S.sub[t][u].live THEN (IF m = "N" THEN <<>> ELSE <<Ev(IF t \in P2Ps THEN "reinvite" ELSE "new", t, u, m \in {"JRWPS", "JRWPA"})>>)
         ELSE IF m = "N" THEN (IF S.sub[t][u].P THEN <<Ev("mute", t, u, FALSE)>> ELSE <<>>) \o <<Ev("evict", t, u, FALSE)>>
         ELSE IF S.sub[t][u].P /\ m \in {"JRWS", "JRWA"} THEN <<Ev("mute", t, u, FALSE)>>
         ELSE IF ~S.sub[t][u].P /\ m \in {"JRWPS", "JRWPA"} THEN <<Ev("unmute", t, u, FALSE)>> ELSE <<>>
